@@ -129,3 +129,17 @@ package structs
 //@   assumed
 //@   modifies allbytes
 //@ end
+
+// min / max of a column's statistics: writes the two extreme values only
+// (frame ASSUMED; ReduceMinMax is outside the verified slice)
+//@ func UpdateMinMax
+//@   assumed
+//@   modifies stats.Min, stats.Max, fieldsof(sutils.CValueEnclosure)
+//@ end
+
+// error bookkeeping of a search node: touches the node's error map only
+// (frame ASSUMED)
+//@ func (*NodeResult).StoreGlobalSearchError
+//@   assumed
+//@   modifies nodeRes.GlobalSearchErrors, mapof(nodeRes.GlobalSearchErrors), fieldsof(SearchErrorInfo)
+//@ end
